@@ -129,6 +129,7 @@ type gOp struct {
 
 type gReplay struct {
 	Property string `json:"property"`
+	Test     string `json:"test,omitempty"`
 	Build    string `json:"build"`
 	Message  string `json:"message"`
 	Cap      int    `json:"cap"`
@@ -143,11 +144,12 @@ type gEnt struct {
 }
 
 type gWorld struct {
-	Wg, Wc *ecs.World
-	ids    []ecs.ID
-	ents   []*gEnt
-	labels map[string]bool
-	nontri bool
+	relQueries int // relation filters with a target queried through the generic API
+	Wg, Wc     *ecs.World
+	ids        []ecs.ID
+	ents       []*gEnt
+	labels     map[string]bool
+	nontri     bool
 }
 
 func newGWorld(cap int) *gWorld {
